@@ -133,7 +133,7 @@ def run(ck):
     ck.extra_cov['model_current_violates_only_for_mmio_storage'] = model_storage_only
     ck.sample({'trace_line_kinds': ['Obs(reference)', 'New', 'Obs(fresh)', 'Reset', 'Obs(fresh_reset)', 'Hist', 'Obs(dirty)',
                                     'Reset', 'Obs(reset)', 'Obs(replayed_after_reset)', 'Obs(replayed_on_fresh)'],
-               'observation_groups': ['r', 'lat', 'tm', 'icu', 'icuvec', 'apbp', 'apbpdis', 'dma', 'mmio', 'btdmp', 'memnz']})
+               'observation_groups': ['r', 'lat', 'tm', 'icu', 'icuvec', 'apbp', 'apbpdis', 'dma', 'mmio', 'btdmp', 'ahbm', 'ext', 'memnz']})
     ck.assumptions += ['the observation vector (registers incl. shadow banks, latches, timers, ICU, mailboxes, every MMIO read-back, '
                        'DMA windows, audio ports, memory) is taken as the modelled state of C17',
                        'histories avoid wild DMA starts, timer scale/mode values that assert, and relocating the MMIO window',
